@@ -68,6 +68,9 @@ def _rdiv_he_expr(v, D, nbits):
 def rewrite_or_keep(raw, rlo, rhi):
     """Returns an int / SymInt equal to the BV term raw (FP-rooted)."""
     from .values import SymInt, _mk
+    folded = z3.simplify(raw)
+    if z3.is_bv_value(folded):
+        return folded.as_signed_long()
     leaves = _leaves(raw)
     if len(leaves) != 1:
         return _mk(raw, rlo, rhi)
